@@ -7,10 +7,14 @@ Traces == JsonDeserialize(IOEnv.TRACE_FILE)
 VARIABLE tid
 Tr == Traces[tid]
 Shapers == {"A", "B"}
-Thresholds == {0, 50, 100}
+Thresholds == {0, 50, 501, 100}         \* 501: a threshold a rounding error above 50 %
+NearPairs == {{50, 501}}
+GraphKinds == {"normal", "void"}
+Variant == "code"
 MaxCalls == 8
 S == INSTANCE ShaperApi WITH callerNs <- {"ex"}, built <- Shapers, ns <- [s \in Shapers |-> {"ex", ""}],
-        memoThr <- [s \in Shapers |-> -1], memoStages <- [s \in Shapers |-> {}], dupExamples <- [s \in Shapers |-> 0], log <- <<>>
+        memoThr <- [s \in Shapers |-> -1], memoStages <- [s \in Shapers |-> {}], dupExamples <- [s \in Shapers |-> 0], log <- <<>>,
+        graph <- [s \in Shapers |-> "normal"], tracker <- [s \in Shapers |-> "none"], profile <- [s \in Shapers |-> "none"]
 CallOf(e) == [kind |-> e.kind, fmt |-> e.fmt, sink |-> e.sink, thr |-> e.thr]
 Clauses == UNION {S!CallClauses(Tr.events[i]) \cup (IF CallOf(Tr.events[i]) \notin S!Calls THEN {"MACHINERY.call"} ELSE {})
                   : i \in 1..Len(Tr.events)}
